@@ -47,16 +47,16 @@ class Sched:
         if event == "line":
             lines = self.codes.get(frame.f_code)
             if lines is None or frame.f_lineno in lines:
-                self.yield_point(frame.f_lineno)
+                self.yield_point(frame.f_lineno, frame.f_code.co_name)
         return self._local_trace
 
     # -- scheduling -----------------------------------------------------------------------------
-    def yield_point(self, lineno=0):
+    def yield_point(self, lineno=0, name=""):
         i = self.idx.i
         s = self.step
         self.step += 1
         self.trace.append(i)
-        self.points.append((i, lineno))
+        self.points.append((i, lineno, name))
         if self.step > self.max_steps:
             raise Deadlock("step budget exceeded")
         if s in self.preempt:
